@@ -100,7 +100,8 @@ class Ctx:
             from . import canon
 
             canon.strip_local_annotations(tree)
-            k = canon.canonicalise(tree, rel)
+            canon.inline_explaining_temporaries(tree)
+            k = canon.canonicalise(tree, rel, canon.package_keyword_names(self.root, self.overlay))
             if k:
                 self.notes.append(f"{rel}: {k} local(s) renamed to their reference spelling before analysis (alpha-renaming)")
             pyfacts.annotate(tree, rel)
